@@ -345,11 +345,272 @@ def run(ctx):
     label_decoding(ctx)
     bom_read_and_seek(ctx)
     content_charset_grammar(ctx)
+    user_defined_mapping(ctx)
+    prescan_byte_sets(ctx)
+    prescan_meta_table(ctx)
     # C06.15: the content= extraction returns "nothing" or a label; an exception leaving it would be taken by getEncoding's
     # bracket for the end of the buffer and end the whole pre-scan, hiding every later <meta>
     r.rule("C06.15", "no StopIteration / ValueError leaves ContentAttrParser.parse (it would end the pre-scan instead of moving to the next attribute)", floor=1)
     from .c03 import prescan_exception_flow
     prescan_exception_flow(ctx, "C06.15", entries=(("ContentAttrParser", "parse"),), floor_sites=1)
+
+
+def user_defined_mapping(ctx):
+    """C06.16: the pre-scan ("If charset is x-user-defined, then set charset to windows-1252") and "change the encoding" for a
+    late <meta> both map a declared x-user-defined to windows-1252, next to the UTF-16 -> UTF-8 mapping (C06.2)."""
+    r = ctx.r
+    r.rule("C06.16", "a declared x-user-defined is mapped to windows-1252 on both declaration paths", floor=2)
+    for qual, key in (("HTMLBinaryInputStream.detectEncodingMeta", "prescan-x-user-defined"),
+                      ("HTMLBinaryInputStream.changeEncoding", "late-x-user-defined")):
+        f = ctx.repo.func(REL, qual)
+        cfg = CFG(f.node)
+        tests = [n for n in cfg.nodes if n.kind == "test" and "x-user-defined" in norm(n.ast) and ".name" in norm(n.ast)]
+        mapped = [t for t in tests if any(lab is True and m.kind == "stmt" and isinstance(m.ast, ast.Assign) and
+                                          norm(m.ast.value) in ("lookupEncoding('windows-1252')", "lookupEncoding('cp1252')")
+                                          for m, lab in t.succ)]
+        utf16 = any("utf-16be" in norm(n.ast) for n in cfg.nodes if n.kind == "test")
+        r.idiom("C06.16", bool(mapped), key, f.where, "%s: the x-user-defined mapping was not recognised" % qual,
+                wrong=[(not tests and utf16 and "x-user-defined" not in norm(f.node),
+                        "%s maps a declared UTF-16 to UTF-8 but uses a declared x-user-defined as it stands; the standard maps it to "
+                        "windows-1252: parse(b'<meta charset=x-user-defined><p>\\xe9') reports x-user-defined" % qual)])
+
+
+def prescan_byte_sets(ctx):
+    """C06.17: the byte classes of "prescan a byte stream to determine its encoding", evaluated from the code's own constants:
+    `<meta` must be followed by white space or `/`; a tag name runs to white space or `>` (a `<` inside it is part of the name);
+    an unquoted attribute value ends at white space or `>`; before an attribute name white space and `/` are skipped; a comment
+    ends at the first `-->` whose dashes may be the two dashes of `<!--` itself (`<!-->` is a complete comment)."""
+    from ..repo import membership_test
+    r = ctx.r
+    ce = ctx.ce
+    r.rule("C06.17", "prescan byte classes and resumption points: after `<meta`, tag-name end, unquoted-value end, pre-attribute skip, comment end, `<meta`+other, lone `<`", floor=7)
+    mod = ctx.repo.module(REL)
+    SP = {b"\t", b"\n", b"\x0c", b"\r", b" "}
+
+    def show(x):
+        return sorted(v.decode("latin-1") for v in x)
+
+    def judge(key, where, got, want, what, consequence):
+        if got is None:
+            r.idiom("C06.17", False, key, where, "%s: the byte class was not found" % what)
+            return
+        got = set(got)
+        r.check("C06.17", got == want, key, where,
+                "%s is %s in html5lib; the standard has %s (extra %s, missing %s): %s"
+                % (what, show(got), show(want), show(got - want), show(want - got), consequence),
+                {"extra": show(got - want), "missing": show(want - got)}, detail={"set": show(got)})
+    # (a) after `<meta`
+    hm = ctx.repo.func(REL, "EncodingParser.handleMeta")
+    env = ce.local_env(hm.node, mod)
+    got = None
+    first = next((st for st in hm.node.body if isinstance(st, ast.If)), None)
+    if first is not None:
+        t = first.test
+        if isinstance(t, ast.UnaryOp) and isinstance(t.op, ast.Not):
+            t = t.operand
+        elif isinstance(t, ast.Compare) and len(t.ops) == 1 and isinstance(t.ops[0], ast.NotIn):
+            t = ast.Compare(left=t.left, ops=[ast.In()], comparators=t.comparators)
+        elif isinstance(t, ast.BoolOp) and isinstance(t.op, ast.And) and all(
+                isinstance(v, ast.Compare) and len(v.ops) == 1 and isinstance(v.ops[0], ast.NotEq) for v in t.values):
+            t = ast.BoolOp(op=ast.Or(), values=[ast.Compare(left=v.left, ops=[ast.Eq()], comparators=v.comparators) for v in t.values])
+        mt = membership_test(t, lambda x: ce.try_eval(x, mod, env))
+        if mt is not None and "currentByte" in mt[0]:
+            got = mt[1]
+    judge("after-meta", hm.where, got, SP | {b"/"}, "the byte class accepted directly after `<meta`",
+          "`<meta/charset=utf-8>` is a meta element for the standard (and for the tokenizer) but is skipped by the pre-scan, which "
+          "matters where the tree builder cannot see it later (inside title, script, style, textarea)")
+    # (b) tag-name end
+    hp = ctx.repo.func(REL, "EncodingParser.handlePossibleTag")
+    env = ce.local_env(hp.node, mod)
+    sk = [c for c in ast.walk(hp.node) if isinstance(c, ast.Call) and norm(c.func).endswith("skipUntil") and c.args]
+    got = ce.try_eval(sk[0].args[0], mod, env) if len(sk) == 1 else None
+    judge("tag-name-end", hp.where, got, SP | {b">"}, "the byte class that ends a tag name",
+          "`<a<meta charset=utf-8>` is one tag named `a<meta` for the standard and the tokenizer; the pre-scan restarts at the inner `<` "
+          "and takes the encoding from a meta element nobody else sees")
+    # (c) unquoted value end, (d) pre-attribute skip
+    ga = ctx.repo.func(REL, "EncodingParser.getAttribute")
+    env = ce.local_env(ga.node, mod)
+    loops = [w for w in ga.node.body if isinstance(w, ast.While)]
+    got = None
+    if loops:
+        last = loops[-1]
+        for st in last.body:
+            if isinstance(st, ast.If):
+                mt = membership_test(st.test, lambda x: ce.try_eval(x, mod, env))
+                if mt is not None and any(isinstance(x, ast.Return) for x in st.body):
+                    got = mt[1]
+                break
+    judge("unquoted-value-end", ga.where, got, SP | {b">"}, "the byte class that ends an unquoted attribute value",
+          "`<meta charset=utf-8<x>` declares the (unknown) label `utf-8<x` for the standard and the tokenizer; the pre-scan stops at `<` "
+          "and reads `utf-8`")
+    sk = [c for c in ast.walk(ga.node) if isinstance(c, ast.Call) and norm(c.func).endswith(".skip") and c.args]
+    got = ce.try_eval(sk[0].args[0], mod, env) if sk else None
+    judge("pre-attribute-skip", ga.where, got, SP | {b"/"}, "the byte class skipped before an attribute name", "attributes after `/` are misread")
+    # (f) `<meta` followed by any other byte is the beginning of an ordinary tag (`<metadata ...>`): its name and attributes are
+    # skipped like any tag's, not scanned as markup
+    early = first.body if first is not None else []
+    hands_over = any(isinstance(c, ast.Call) and norm(c.func) in ("self.handlePossibleTag", "self.handlePossibleStartTag") for st in early for c in ast.walk(st))
+    steps_back = any(isinstance(a, ast.AugAssign) and isinstance(a.op, ast.Sub) and norm(a.target).endswith(".position") and
+                     ce.try_eval(a.value, mod, {}) == 4 for st in early for a in ast.walk(st))
+    plain_return = len(early) == 1 and isinstance(early[0], ast.Return)
+    r.idiom("C06.17", hands_over and steps_back, "meta-prefix-is-a-tag", hm.where, "handleMeta: what happens to `<meta` + another byte was not recognised",
+            wrong=[(plain_return, "`<meta` followed by a byte other than white space or `/` is dropped and scanning resumes inside the tag: "
+                                  "`<metadata a=\"<meta charset=koi8-r>\">` yields koi8-r from inside an attribute value; for the standard it is an "
+                                  "ordinary tag whose attributes are skipped")])
+    # (g) a `<` that starts no tag consumes nothing else: the byte after it is examined again
+    nl = next((st for st in hp.node.body if isinstance(st, ast.If) and "asciiLettersBytes" in norm(st.test)), None)
+    if nl is None:
+        r.idiom("C06.17", False, "lone-lt-keeps-next-byte", hp.where, "handlePossibleTag: the not-a-letter branch was not found")
+    else:
+        # paths of the branch for a start tag (endTag false): is previous() called?
+        param = hp.params()[1]
+        def start_path_calls_previous(stmts):
+            for st in stmts:
+                if isinstance(st, ast.If) and norm(st.test) == param:
+                    if start_path_calls_previous(st.orelse):
+                        return True
+                    continue
+                if isinstance(st, ast.If) and norm(st.test) == "not " + param:
+                    if start_path_calls_previous(st.body):
+                        return True
+                    continue
+                if any(isinstance(c, ast.Call) and norm(c.func).endswith(".previous") for c in ast.walk(st)):
+                    return True
+            return False
+        ok = start_path_calls_previous(nl.body)
+        r.check("C06.17", ok, "lone-lt-keeps-next-byte", "%s:%d" % (REL, nl.lineno),
+                "after a `<` that is not followed by a letter the pre-scan resumes one byte too far (matchBytes has stepped past the `<`, the "
+                "main loop steps once more): in `<<meta charset=koi8-r>` the second `<` is never examined and the declaration is missed "
+                "(visible where the tree builder cannot see the element either: `<title><<meta charset=koi8-r></title>`)")
+    # (e) comment end: the search for `-->` starts two bytes before the position matchBytes(b"<!--") left
+    hc = ctx.repo.func(REL, "EncodingParser.handleComment")
+    jt = [c for c in ast.walk(hc.node) if isinstance(c, ast.Call) and norm(c.func).endswith("jumpTo") and c.args and ce.try_eval(c.args[0], mod, {}) == b"-->"]
+    back = [a for a in ast.walk(hc.node) if isinstance(a, ast.AugAssign) and isinstance(a.op, ast.Sub) and norm(a.target).endswith(".position")
+            and ce.try_eval(a.value, mod, {}) == 2]
+    r.idiom("C06.17", len(jt) == 1 and len(back) == 1 and back[0].lineno < jt[0].lineno, "comment-end-shares-dashes", hc.where,
+            "handleComment: the search for `-->` was not recognised",
+            wrong=[(len(jt) == 1 and not back and len([x for x in ast.walk(hc.node) if isinstance(x, ast.Call)]) == 1,
+                    "the pre-scan looks for `-->` only behind the four bytes `<!--`; for the standard the two dashes of `<!--` may be the "
+                    "dashes of `-->` (`<!-->` and `<!--->` are complete comments), so `<!--><meta charset=utf-8>` loses its declaration: "
+                    "the pre-scan finds no `-->` and gives up")])
+
+
+def _std_meta(attrs, labels, contents):
+    """The standard's processing of one meta element in the pre-scan, transcribed: `attrs` is the list of (name, value) pairs in
+    source order; labels: value -> encoding or None (get an encoding); contents: value -> label or None (the extraction
+    algorithm).  Returns the encoding the element declares, or None."""
+    seen = set()
+    got_pragma, need_pragma, charset, failed = False, None, None, False
+    for name, value in attrs:
+        if name in seen:
+            continue
+        seen.add(name)
+        if name == b"http-equiv":
+            if value == b"content-type":
+                got_pragma = True
+        elif name == b"content":
+            lab = contents.get(value)
+            enc = labels.get(lab) if lab is not None else None
+            if enc is not None and charset is None and not failed:
+                charset, need_pragma = enc, True
+        elif name == b"charset":
+            charset = labels.get(value)
+            failed = charset is None
+            need_pragma = False
+    if need_pragma is None or (need_pragma and not got_pragma) or charset is None:
+        return None
+    return charset
+
+
+def prescan_meta_table(ctx):
+    """C06.18: what one `<meta ...>` declares in the pre-scan is a function of its attribute list; handleMeta is evaluated (the
+    attribute reader, the label lookup and the content= extractor replaced by tables) on every attribute list of length <= 3 over
+    a seven-letter alphabet and compared with the standard's processing: duplicates ignored, `charset` wins over `content`, a
+    `charset` that names no encoding makes the element declare nothing, `content` needs http-equiv=content-type anywhere in the tag."""
+    import itertools
+    from ..partition import MiniInterp, Opaque
+    r = ctx.r
+    ce = ctx.ce
+    r.rule("C06.18", "pre-scan: the encoding a meta element declares, for every attribute list of length <= 3 over 7 attribute kinds", floor=300)
+    f = ctx.repo.func(REL, "EncodingParser.handleMeta")
+    mod = f.module
+    labels = {b"a": "ENC-A", b"b": "ENC-B", b"bogus": None}
+    contents = {b"c=b": b"b", b"c=bogus": b"bogus", b"none": None}
+    alphabet = [(b"charset", b"a"), (b"charset", b"bogus"), (b"content", b"c=b"), (b"content", b"none"), (b"content", b"c=bogus"),
+                (b"http-equiv", b"content-type"), (b"http-equiv", b"refresh"), (b"name", b"x")]
+    lists = [()] + [t for n in (1, 2, 3) for t in itertools.product(alphabet, repeat=n)]
+    undecided = 0
+    for attrs in lists:
+        queue = list(attrs)
+        state = {"encoding": "unset"}
+
+        def hook(node, local):
+            t = norm(node)
+            if t.endswith(".currentByte"):
+                return b" "
+            if isinstance(node, ast.Call):
+                fn = norm(node.func)
+                if fn == "self.getAttribute":
+                    return queue.pop(0) if queue else None
+                if fn == "lookupEncoding" and len(node.args) == 1:
+                    v = ce.eval(node.args[0], mod, local)
+                    return labels.get(v)
+                if fn == "EncodingBytes" and len(node.args) == 1:
+                    return ce.eval(node.args[0], mod, local)
+                if fn == "ContentAttrParser" and len(node.args) == 1:
+                    return ("content-parser", ce.eval(node.args[0], mod, local))
+                if isinstance(node.func, ast.Attribute) and node.func.attr == "parse" and not node.args:
+                    v = ce.eval(node.func.value, mod, local)
+                    if isinstance(v, tuple) and v and v[0] == "content-parser":
+                        return contents.get(v[1])
+            return NotImplemented
+
+        def stmt_hook(st, out, interp):
+            if isinstance(st, ast.While):
+                for _ in range(12):
+                    if not interp.eval_guard(st.test, out.env):
+                        return False
+                    left = interp._block(st.body, out)
+                    if out.returned or out.raised:
+                        return True
+                    if left and out.flow == "break":
+                        out.flow = None
+                        return False
+                    out.flow = None
+                raise AnalysisError("attribute loop does not end")
+            if isinstance(st, ast.Assign) and len(st.targets) == 1 and norm(st.targets[0]) == "self.encoding":
+                state["encoding"] = interp.eval_expr(st.value, out.env)
+                return False
+            if isinstance(st, ast.Expr) and isinstance(st.value, ast.Call) and isinstance(st.value.func, ast.Attribute) and \
+                    st.value.func.attr in ("append", "add") and isinstance(st.value.func.value, ast.Name) and \
+                    st.value.func.value.id in out.env and len(st.value.args) == 1:
+                cur = out.env[st.value.func.value.id]
+                v = interp.eval_expr(st.value.args[0], out.env)
+                if isinstance(cur, list) and st.value.func.attr == "append":
+                    out.env[st.value.func.value.id] = list(cur) + [v]
+                    return False
+                if isinstance(cur, set) and st.value.func.attr == "add":
+                    out.env[st.value.func.value.id] = set(cur) | {v}
+                    return False
+            return NotImplemented
+        key = "meta[%s]" % " ".join("%s=%s" % (n.decode(), v.decode()) for n, v in attrs)
+        interp = MiniInterp(ce, mod, expr_hook=hook, stmt_hook=stmt_hook)
+        try:
+            res = interp.run(f.node.body, {"self": Opaque("self")})
+        except (AnalysisError, Exception) as e:       # noqa: BLE001
+            undecided += 1
+            if undecided <= 3:
+                r.idiom("C06.18", False, key, f.where, "handleMeta not decidable for this attribute list (%s)" % str(e)[:100])
+            continue
+        got = state["encoding"] if state["encoding"] != "unset" else None
+        stops = res.returned and res.value is False
+        want = _std_meta(list(attrs), labels, contents)
+        ok = got == want and stops == (want is not None)
+        r.check("C06.18", ok, key, f.where,
+                "<meta %s>: html5lib's pre-scan takes %s%s; the standard's takes %s" % (
+                    " ".join("%s=%s" % (n.decode(), v.decode()) for n, v in attrs), got or "no declaration",
+                    "" if stops == (got is not None) else " (and %s scanning)" % ("stops" if stops else "goes on"), want or "no declaration"),
+                {"attrs": [[n.decode(), v.decode()] for n, v in attrs]})
 
 
 def bom_table(ctx):
@@ -580,7 +841,8 @@ def content_charset_grammar(ctx):
 
 def prescan_tag_rules(ctx):
     """C06.8: the prescan skips over a tag by reading its attributes one by one -- for end tags as well as start tags (a `>`
-    inside a quoted attribute value of an end tag does not end it) -- unless the tag name runs into another `<`."""
+    inside a quoted attribute value of an end tag does not end it).  (An earlier version of this rule also expected "unless the
+    tag name runs into another `<`": that was html5lib's behaviour, not the standard's -- see C06.17 tag-name-end.)"""
     from ..partition import MiniInterp, Opaque
     r = ctx.r
     ce = ctx.ce
@@ -589,7 +851,7 @@ def prescan_tag_rules(ctx):
     p = f.params()[1]
     for end_tag in (False, True):
         for first in (b"a", b"1"):
-            for stop in (b"<", b" ", b">", b"/"):
+            for stop in (b" ", b">", b"\t"):
                 got = []
 
                 def hook(node, local, first=first, stop=stop):
@@ -618,7 +880,7 @@ def prescan_tag_rules(ctx):
                 except AnalysisError as e:
                     r.idiom("C06.8", False, key, f.where, "handlePossibleTag not decidable (%s)" % str(e)[:80])
                     continue
-                exp = first == b"a" and stop != b"<"
+                exp = first == b"a"
                 r.check("C06.8", bool(got) == exp, key, f.where,
                         "prescan, %s tag starting with %r, name followed by %r: attributes are %s; the standard %s -- otherwise a `>` inside "
                         "an attribute value ends the tag early and the text after it is scanned as markup" % (
@@ -668,6 +930,8 @@ def mutants():
                 "        charEncoding = lookupEncoding(self.transport_encoding), \"certain\"\n"
                 "        if charEncoding[0] is not None:\n            return charEncoding\n\n")
     return [
+        T("prescan-user-defined-unmapped", REL, "        elif encoding is not None and encoding.name == \"x-user-defined\":\n            encoding = lookupEncoding(\"windows-1252\")\n", "", "C06.16"),
+        T("late-user-defined-unmapped", REL, "        elif newEncoding.name == \"x-user-defined\":\n            newEncoding = lookupEncoding(\"windows-1252\")\n            assert newEncoding is not None\n", "", "C06.16"),
         T("content-parser-bracket-narrowed", REL, "                    return self.data[oldPosition:]\n        except StopIteration:\n            return None",
           "                    return self.data[oldPosition:]\n        except ValueError:\n            return None", "C06.15"),
         T("charset-value-no-semicolon-stop", REL, "self.data.skipUntil(spaceCharactersBytes | frozenset([b\";\"]))", "self.data.skipUntil(spaceCharactersBytes)", "C06.14"),
@@ -677,7 +941,18 @@ def mutants():
         T("bom-utf32-entry", REL, "            codecs.BOM_UTF16_LE: 'utf-16le', codecs.BOM_UTF16_BE: 'utf-16be',\n        }", "            codecs.BOM_UTF16_LE: 'utf-16le', codecs.BOM_UTF16_BE: 'utf-16be',\n            codecs.BOM_UTF32_LE: 'utf-32le',\n        }", "C06.10"),
         T("bom-utf16-swapped", REL, "codecs.BOM_UTF16_LE: 'utf-16le', codecs.BOM_UTF16_BE: 'utf-16be'", "codecs.BOM_UTF16_LE: 'utf-16be', codecs.BOM_UTF16_BE: 'utf-16le'", "C06.10"),
         T("endtag-extra-advance", REL, "    def handlePossibleEndTag(self):\n        return self.handlePossibleTag(True)", "    def handlePossibleEndTag(self):\n        next(self.data)\n        return self.handlePossibleTag(True)", "C06.9"),
-        T("endtag-skip-attrs", REL, "        else:\n            # Read all attributes\n            attr = self.getAttribute()", "        elif endTag:\n            self.handleOther()\n        else:\n            # Read all attributes\n            attr = self.getAttribute()", "C06.8"),
+        T("endtag-skip-attrs", REL, "        # Read all attributes\n        attr = self.getAttribute()\n        while attr is not None:\n            attr = self.getAttribute()\n        return True",
+          "        if endTag:\n            self.handleOther()\n            return True\n        # Read all attributes\n        attr = self.getAttribute()\n        while attr is not None:\n            attr = self.getAttribute()\n        return True", "C06.8"),
+        T("prescan-meta-needs-space", REL, "        if self.data.currentByte not in spaceCharactersBytes | frozenset([b\"/\"]):", "        if self.data.currentByte not in spaceCharactersBytes:", "C06.17"),
+        T("prescan-tagname-stops-at-lt", REL, "spacesRightAngleBracket = spaceCharactersBytes | frozenset([b\">\"])", "spacesRightAngleBracket = spaceCharactersBytes | frozenset([b\">\", b\"<\"])", "C06.17"),
+        T("prescan-comment-after-four-bytes", REL, "        self.data.position -= 2\n        return self.data.jumpTo(b\"-->\")", "        return self.data.jumpTo(b\"-->\")", "C06.17"),
+        T("prescan-lone-lt-skips-a-byte", REL, "            data.previous()\n            if endTag:\n                self.handleOther()\n            return True", "            if endTag:\n                data.previous()\n                self.handleOther()\n            return True", "C06.17"),
+        T("prescan-meta-prefix-dropped", REL, "            self.data.position -= len(b\"meta\")\n            return self.handlePossibleStartTag()", "            return True", "C06.17"),
+        T("prescan-meta-duplicates-counted", REL, "            if attr[0] in attrNames:\n                continue\n", "", "C06.18"),
+        T("prescan-meta-content-overrides-charset", REL, "                if (tentativeEncoding is not None and\n                        charset is None and not charsetFailed):", "                if tentativeEncoding is not None:", "C06.18"),
+        T("prescan-meta-pragma-not-needed", REL, "        if needPragma is None or (needPragma and not gotPragma) or charset is None:", "        if needPragma is None or charset is None:", "C06.18"),
+        T("content-charset-search-gives-up", REL, "            while True:\n                self.data.jumpTo(b\"charset\")\n                self.data.position += 1\n                self.data.skip()\n                if self.data.currentByte == b\"=\":\n                    break\n",
+          "            self.data.jumpTo(b\"charset\")\n            self.data.position += 1\n            self.data.skip()\n            if not self.data.currentByte == b\"=\":\n                return None\n", "C06.14"),
         T("late-meta-case-sensitive", "html5parser.py", "                  attributes[\"http-equiv\"].lower() == \"content-type\"):", "                  attributes[\"http-equiv\"] == \"content-type\"):", "C06.7"),
         T("late-meta-any-content", "html5parser.py", "            elif (\"content\" in attributes and\n                  \"http-equiv\" in attributes and\n                  attributes[\"http-equiv\"].lower() == \"content-type\"):",
           "            elif \"content\" in attributes:", "C06.7"),
@@ -689,8 +964,8 @@ def mutants():
         T("parent-utf16", REL, 'if charEncoding[0] is not None and not charEncoding[0].name.startswith("utf-16"):', 'if charEncoding[0] is not None:', "C06.1"),
         T("late-utf16-dead", REL, "            assert newEncoding is not None\n        if newEncoding == self.charEncoding[0]:",
           "            assert newEncoding is not None\n        elif newEncoding == self.charEncoding[0]:", "C06.2"),
-        T("prescan-no-map", REL, '        if encoding is not None and encoding.name in ("utf-16be", "utf-16le"):\n            encoding = lookupEncoding("utf-8")\n\n        return encoding',
-          '        return encoding', "C06.2"),
+        T("prescan-no-map", REL, '        if encoding is not None and encoding.name in ("utf-16be", "utf-16le"):\n            encoding = lookupEncoding("utf-8")\n        elif encoding is not None and encoding.name == "x-user-defined":',
+          '        if encoding is not None and encoding.name == "x-user-defined":', "C06.2"),
         T("reset-before-store", REL, '            self.charEncoding = (newEncoding, "certain")\n            self.reset()',
           '            self.reset()\n            self.charEncoding = (newEncoding, "certain")', "C06.3"),
         T("no-seek0", REL, '            self.rawStream.seek(0)\n            self.charEncoding = (newEncoding, "certain")',
@@ -713,4 +988,8 @@ def preserving():
     return [
         T("rename-local", REL, '        charEncoding = lookupEncoding(self.likely_encoding), "tentative"\n        if charEncoding[0] is not None:\n            return charEncoding',
           '        charEncoding = (lookupEncoding(self.likely_encoding), "tentative")\n        if charEncoding[0] is not None:\n            return charEncoding', None),
+        # accepting a valid charset attribute at once equals reading on: later attributes cannot change the outcome
+        T("prescan-meta-early-accept", REL, "                charset = lookupEncoding(attr[1])\n                charsetFailed = charset is None\n                needPragma = False\n",
+          "                charset = lookupEncoding(attr[1])\n                charsetFailed = charset is None\n                needPragma = False\n                if charset is not None:\n                    self.encoding = charset\n                    return False\n", None),
+        T("prescan-meta-seen-tuple", REL, "            attrNames.append(attr[0])\n", "            attrNames = attrNames + [attr[0]]\n", None),
     ]
